@@ -9,7 +9,7 @@ open Lean Bioscrape Driver
 
 section
 variable {α : Type} [Codec α] [Zero α] [One α] [Add α] [Sub α] [Mul α] [Div α] [NatCast α] [IntCast α]
-  [LT α] [LE α] [DecidableLT α] [DecidableLE α] [Transc α]
+  [LT α] [LE α] [DecidableLT α] [DecidableLE α] [Transc α] [Trunc α] [Neg α] [Uniform α]
 
 def jobProp (j : Json) : Except String Json := do
   let q : Propensity α ← decProp (← j.getObjVal? "prop")
@@ -63,11 +63,62 @@ def jobNetwork (j : Json) : Except String Json := do
       ("deriv", encList (derivative n U D props x p t))])
   return Json.mkObj (base ++ [("points", Json.arr outs.toArray)])
 
+def dumpQueue (q : DQ α) : Json :=
+  Json.mkObj [("next", Codec.enc q.next),
+    ("pending", Json.arr ((List.range q.numCols).map (fun j =>
+      encList ((List.range q.numRxn).map (fun r => q.pending j r)))).toArray)]
+
+/-- an operation sequence over a pool of `ArrayDelayQueue` objects. -/
+def jobDQ (j : Json) : Except String Json := do
+  let numRxn ← getNatField j "numRxn"
+  let numCols ← getNatField j "numCols"
+  let dt : α ← getNum j "dt"
+  let t0 : α ← getNum j "t0"
+  let ops ← getArr j "ops"
+  let s0 ← Uniform.init (α := α) j
+  let mut qs : Array (DQ α) := #[DQ.new numRxn numCols dt t0]
+  let mut s := s0
+  let mut outs : Array Json := #[]
+  for opj in ops do
+    let a ← opj.getArr?
+    let tag ← (a.getD 0 Json.null).getStr?
+    let qi ← (a.getD 1 Json.null).getNat?
+    let q := qs.getD qi (DQ.new numRxn numCols dt t0)
+    match tag with
+    | "add" =>
+      let t : α ← Codec.dec (a.getD 2 Json.null)
+      let r ← (a.getD 3 Json.null).getNat?
+      let amt : α ← Codec.dec (a.getD 4 Json.null)
+      qs := qs.setIfInBounds qi (q.add t r amt)
+      outs := outs.push (Json.str "ok")
+    | "read" =>
+      outs := outs.push (Json.mkObj [("next", Codec.enc q.next), ("rx", encList q.nextReactions)])
+    | "advance" =>
+      qs := qs.setIfInBounds qi q.advance
+      outs := outs.push (Json.str "ok")
+    | "set" =>
+      let t : α ← Codec.dec (a.getD 2 Json.null)
+      qs := qs.setIfInBounds qi (q.setCurrentTime t)
+      outs := outs.push (Json.str "ok")
+    | "copy" =>
+      qs := qs.push q.copy
+      outs := outs.push (Json.str "ok")
+    | "partition" =>
+      let p : α ← Codec.dec (a.getD 2 Json.null)
+      let ((q1, q2), s') := q.partition (Uniform.gen (α := α)) p s
+      s := s'
+      qs := (qs.push q1).push q2
+      outs := outs.push (Json.str "ok")
+    | "dump" => outs := outs.push (dumpQueue q)
+    | t => throw s!"bad queue op {t}"
+  return Json.mkObj [("outs", Json.arr outs), ("final", Json.arr (qs.map dumpQueue))]
+
 def dispatch (op : String) (j : Json) : Except String Json :=
   match op with
   | "prop" => jobProp (α := α) j
   | "term" => jobTerm (α := α) j
   | "network" => jobNetwork (α := α) j
+  | "dq" => jobDQ (α := α) j
   | _ => throw s!"unknown op {op}"
 end
 
